@@ -24,7 +24,8 @@ Code anchors (starting points; you may change code elsewhere if it serves the go
 Your scratch git worktree of the project is {wt} (already created, with a warm build cache in {wt}/target). Work ONLY inside that
 directory and your output directory {out}. Do NOT read or touch /repo, /verif or any other /tmp/wt-* directory, and do not run
 `git worktree` or `git commit` commands. Everything is offline: always prefix cargo with `RUSTC_BOOTSTRAP=1 CARGO_NET_OFFLINE=true` and
-pass `--offline`. Always wrap commands in `timeout` (some Mech inputs hang: parentheses nested deeper than 6, huge ranges, deep
+pass `--offline`. Disk space is scarce: use only the default dev/test profile exactly as configured in {wt}/.cargo/config.toml (never
+`--release`, never a second `--target-dir`, never `CARGO_PROFILE_*`/`RUSTFLAGS` overrides, no `cargo clean`), and do not copy the worktree. Always wrap commands in `timeout` (some Mech inputs hang: parentheses nested deeper than 6, huge ranges, deep
 non-tail recursion).
 
 Requirements for the change:
